@@ -24,7 +24,7 @@ Theorem vm_equals_evaluator_model_partial :
     st_trace s1 = [] /\
     forall n y v, SymTab.st_resolve n (C.csym st) = Some y -> CS.slook n env' = Some v ->
                   nth_error (Vm.globals sv) (N.to_nat (SymTab.sidx y)) = Some v /\
-                  sem_global s1 n = Some v.
+                  sem_global s1 n v.
 Proof.
   intros P p st fuel env' input ff ay Ft Rl Fl Hc Hx Hd prog.
   destruct (CompileLocProofs.compile_correct_locals p st fuel env' Fl Hc Hx Hd) as (sv & Hr & Hh & Ho & Hg).
@@ -49,7 +49,7 @@ Corollary vm_equals_evaluator_model_tr_partial :
     st_trace s1 = [] /\
     forall n y v, SymTab.st_resolve n (C.csym st) = Some y -> CS.slook n env' = Some v ->
                   nth_error (Vm.globals sv) (N.to_nat (SymTab.sidx y)) = Some v /\
-                  sem_global s1 n = Some v.
+                  sem_global s1 n v.
 Proof.
   intros p st fuel env' input ff ay Ft Fl Hc Hx Hd prog P.
   apply (vm_equals_evaluator_model_partial P p st fuel env' input ff ay Ft); auto.
